@@ -8,6 +8,7 @@
 //! Nothing in here copies allsorts code: every harness calls the public API of
 //! the crate as compiled from /repo's current working tree.
 #![allow(dead_code, unused_imports, unused_macros, clippy::all)]
+#![cfg_attr(all(kani, feature = "c17"), feature(slice_internals))]
 
 #[cfg(kani)]
 pub mod util;
@@ -60,6 +61,8 @@ mod c18_charset;
 mod c16;
 #[cfg(all(kani, feature = "c12"))]
 mod c12;
+#[cfg(all(kani, feature = "c17"))]
+mod c17;
 #[cfg(all(kani, feature = "c18"))]
 mod c18;
 #[cfg(all(kani, feature = "gen"))]
